@@ -7,6 +7,16 @@ import os
 VERIF = os.path.dirname(os.path.dirname(os.path.abspath(__file__)))
 
 CHECKS = {
+    "C14": dict(
+        technique="runtime monitor: differential oracle (exact Python integers; primes certified by construction) over hostile operand workloads on the three integer back-ends",
+        text=("Every operation of the Integer API is executed on IntegerGMP, IntegerCustom and IntegerNative with operands concentrated on limb "
+              "boundaries, all-ones/single-bit limbs, negatives, operands equal to the modulus, NIST/curve primes (special reductions in mont.c) and "
+              "compared with exact Python integer arithmetic, including the exception outcome where no result exists; modular square roots are "
+              "verified by squaring (p = 3 mod 4, 5 mod 8, 1 mod 8 with high 2-adicity); primality verdicts are judged on ground truth by "
+              "construction (Pocklington-certified primes, Mersenne and curve primes; Chernick Carmichael numbers, p(2p-1)/p(3p-2) strong-pseudoprime "
+              "shapes, prime squares, close-prime products, literature strong/Lucas pseudoprimes); generated primes are checked for exact size and primality."),
+        note="Trusted: CPython integers; ref/primes.py (certificates re-verified at run time, BPSW for library-generated primes). Miller-Rabin on composites is probabilistic: only >=20-round runs must say COMPOSITE. Held only on generated operands (<= 4224 bits).",
+        ref="DESIGN.md §4 C14"),
     "C20": dict(
         technique="runtime monitor: reference-model oracle (independent GF(2^128) + Lagrange) over entropy-tape-driven split/combine executions",
         text=("Every split() runs under a recorded entropy tape; the monitor interpolates the returned shares with an "
